@@ -40,6 +40,8 @@ def build_fixture(root):
     os.symlink('d3', os.path.join(root, 'lnk'))
     os.symlink('../d2', os.path.join(root, 'd1/t6.conf'))               # symlink to a directory
     f('d3/t6.conf')
+    os.symlink('loopdir2', os.path.join(root, 'loopdir'))
+    os.symlink('loopdir', os.path.join(root, 'loopdir2'))
     os.symlink('/dev/null', os.path.join(root, 'd1/t7.conf'))           # neither a regular file nor a directory (a device node, reached through a symlink)
     os.symlink('/dev/null', os.path.join(root, 'd2/t7.conf'))
     f('d3/t7.conf')
@@ -86,7 +88,8 @@ def marker_of(real):
 def pool(root):
     up = '/..' * (HOME.count('/'))
     return ['d1', 'd2', 'd3', 'missing', 'd1/', root + '/d3', '~' + up + root + '/d2', '~%s%s%s/d1' % (USERS[0], '/..' * pwd.getpwnam(USERS[0]).pw_dir.count('/'), root),
-            '.', '~nouser', 'lnk', './d2/../d2', 'd1/t3.conf', '', 'd3//', '../' + os.path.basename(root) + '/d2']
+            '.', '~nouser', 'lnk', './d2/../d2', 'd1/t3.conf', '', 'd3//', '../' + os.path.basename(root) + '/d2',
+            'd3/t2.conf', 'loopdir', 'x' * 5000]        # a regular file used as a directory (ENOTDIR), a symlink loop (ELOOP), a name too long
 
 
 def names(root):
